@@ -1591,11 +1591,12 @@ impl Machine {
             // savepoints of commit points that turned out not to exist never existed
             let ever: BTreeSet<u64> = self.commits.iter().flat_map(|c| c.psp.keys().copied()).collect();
             self.sps.retain(|sp| sp.persistent.is_none_or(|id| ever.contains(&id)));
+            // ... and the validity of a persistent savepoint is whatever the recovered commit
+            // point says: a deletion (or invalidating restore) staged in a commit that failed and
+            // turned out not to have happened must be forgotten again
             for sp in &mut self.sps {
-                if let Some(id) = sp.persistent
-                    && !self.commits[j].psp.contains_key(&id)
-                {
-                    sp.invalid = true;
+                if let Some(id) = sp.persistent {
+                    sp.invalid = !self.commits[j].psp.contains_key(&id);
                 }
             }
         }
